@@ -156,6 +156,9 @@ def partition_guard_rules(F, ok, rep, P):
         b = db[0]
         pf = ok.path_facts(b)
         loops_ = [i for i, t in b.calls() if re.search(r"Iterator>::next$|Iterator::next$", callee_name(t)) or (t["f"].get("path") or "") == "std::iter::Iterator::next"]
+        if not loops_:
+            # the partitions are visited by an adaptor (try_for_each(read_partition)) instead of a `for` loop
+            loops_ = [i for i, t in b.calls() if re.search(r"Iterator::(try_for_each|for_each|try_fold|fold)$", callee_name(t))]
         f = pf.get(loops_[0], TOP) if loops_ else TOP
         good = fact_match(f, "cmp", "^Le$", None, None) and any("is_multiple_of" in str(x) for x in (f or [])) and any(x[0] == "cmp" and x[1] == "Eq" and "len" in str(x) for x in (f or []))
         rep.check(P + ".part", "streaming decoder: partitions only when count <= block size, exact division, and chunk count == partition count", bool(good), loc_of(b), "", "facts: %s" % fact_str(f))
